@@ -73,7 +73,8 @@ def hsB (a : Agent) (now : Nat) (m : Msg) (pd : Pending) (p : Pair) : Agent :=
 theorem handleSuccess_some (a : Agent) (now : Nat) (m : Msg) (l r : Cand) (src : Nat) (pd : Pending) (p : Pair)
     (h : ansPair a now m l r src = some (pd, p)) :
     (a.handleSuccess now m l r src).1 =
-      (C03.hsSel (hsB a now m pd p) p pd).1.modPair p.id fun p => { p with respRecv := p.respRecv + 1 } := by
+      (C03.hsFin (hsB a now m pd p) p pd (C03.hsSel (hsB a now m pd p) p pd).1).modPair p.id
+        fun p => { p with respRecv := p.respRecv + 1 } := by
   obtain ⟨h1, h2, h3, h4, h5⟩ := ansPair_some h
   rw [C03.handleSuccess_eq, h1]
   simp only [h2, h3, h4, beq_self_eq_true, Bool.and_self, Bool.not_true, Bool.false_eq_true, if_false]
@@ -116,24 +117,161 @@ theorem hsSel_g {wa : Bool} (a : Agent) (p : Pair) (pd : Pending) :
   · rw [h]; exact G.refl _ _ _ _ _
   · rw [h]; exact select_g a p.id
 
-/-- from the mark to the end of `handleSuccess`: only the selection may move -/
+/-- the bookkeeping after the decision: the answered value is recorded (controlling) / the mark of the pair is cleared
+(controlled) -/
+theorem hsFin_g {wa : Bool} (a : Agent) (p : Pair) (pd : Pending) (x : Agent) :
+    G wa none (some p.id) none x (C03.hsFin a p pd x) := by
+  unfold C03.hsFin
+  split
+  · split
+    · exact G.w (wa := wa) (G.of_eq (a := x) rfl rfl rfl rfl (fun _ h => h) rfl)
+    · exact G.refl _ _ _ _ _
+  · split
+    · exact G.modPair_ex x p.id C03.hsClear (fun _ => rfl) (fun _ => rfl) (fun _ => rfl)
+    · exact G.refl _ _ _ _ _
+
+/-- from the mark to the end of `handleSuccess`: the selection may move to the pair, its mark may be cleared -/
 theorem handleSuccess_tail_g {wa : Bool} (a : Agent) (now : Nat) (m : Msg) (l r : Cand) (src : Nat) (pd : Pending)
     (p : Pair) (h : ansPair a now m l r src = some (pd, p)) :
-    G wa (some p.id) none none (hsB a now m pd p) (a.handleSuccess now m l r src).1 ∧
+    G wa (some p.id) (some p.id) none (hsB a now m pd p) (a.handleSuccess now m l r src).1 ∧
     (a.handleSuccess now m l r src).1.selected = (C03.hsSel (hsB a now m pd p) p pd).1.selected := by
   rw [handleSuccess_some a now m l r src pd p h]
-  exact ⟨G.then (hsSel_g _ p pd)
+  refine ⟨G.then (((hsSel_g _ p pd).weaken (Or.inr rfl) (Or.inl rfl) (Or.inl rfl) (fun w => w)).trans
+    ((hsFin_g _ p pd _).weaken (Or.inl rfl) (Or.inr rfl) (Or.inl rfl) (fun w => w)))
     (G.modPair_keep _ p.id (fun p => { p with respRecv := p.respRecv + 1 }) (fun _ => rfl) (fun _ => rfl)
-      (fun _ => rfl) (fun _ => rfl)), rfl⟩
+      (fun _ => rfl) (fun _ => rfl)), ?_⟩
+  show (C03.hsFin _ p pd _).selected = _
+  rw [C03.hsFin_selected]
 
-/-- the controlling selector: a USE-CANDIDATE check selects iff it carried a value or nothing is selected -/
+/-- what the response leaves on the pair: valid; its deferred mark is consumed on a controlled agent -/
+def marksAfter (ctl : Bool) (p : Pair) : Bool × Bool × Option Nat :=
+  if !ctl && p.nomOnSuccess then (true, false, none) else (true, p.nomOnSuccess, p.deferredNom)
+
+theorem modPair_marks (x : Agent) (id : Nat) (f : Pair → Pair) (hid : ∀ q, (f q).id = q.id)
+    {X Y : Bool × Bool × Option Nat} (hx : ∀ q ∈ x.checklist, q.id = id → nk q = X)
+    (hf : ∀ q, nk q = X → nk (f q) = Y) :
+    ∀ p' ∈ (x.modPair id f).checklist, p'.id = id → nk p' = Y := by
+  intro p' hp' hid'
+  obtain ⟨q, hq, h | h⟩ := C03.mem_updPair (l := x.checklist) hp'
+  · obtain ⟨e, rfl⟩ := h
+    exact hf q (hx q hq e)
+  · rw [h.2] at hid'; exact absurd hid' h.1
+
+theorem handleSuccess_marks (a : Agent) (now : Nat) (m : Msg) (l r : Cand) (src : Nat) (pd : Pending) (p : Pair)
+    (h : ansPair a now m l r src = some (pd, p)) (hn : (idsOf a).Nodup) (hle : p.id ≤ a.nextPairID)
+    (hp : p ∈ a.checklist) :
+    ∀ p' ∈ (a.handleSuccess now m l r src).1.checklist, p'.id = p.id → nk p' = marksAfter a.controlling p := by
+  rw [handleSuccess_some a now m l r src pd p h]
+  have hB := hsB_g (wa := false) a now m pd p
+  have h0 := hsB_marks a now m pd p hn hp
+  have hle0 : p.id ≤ (hsB a now m pd p).nextPairID := Nat.le_trans hle hB.npid
+  have h1 := nk_carry (hsSel_g (wa := false) (hsB a now m pd p) p pd) hle0 h0
+  have hle1 : p.id ≤ (C03.hsSel (hsB a now m pd p) p pd).1.nextPairID :=
+    Nat.le_trans hle0 (hsSel_g (wa := false) (hsB a now m pd p) p pd).npid
+  have hctl : (hsB a now m pd p).controlling = a.controlling := congrArg Core.controlling (hsB_core a now m pd p)
+  have h2 : ∀ p' ∈ (C03.hsFin (hsB a now m pd p) p pd (C03.hsSel (hsB a now m pd p) p pd).1).checklist,
+      p'.id = p.id → nk p' = marksAfter a.controlling p := by
+    unfold C03.hsFin marksAfter
+    rw [hctl]
+    cases hc : a.controlling with
+    | true =>
+      simp only [if_true, Bool.not_true, Bool.false_and, Bool.false_eq_true, if_false]
+      split
+      · exact h1
+      · exact h1
+    | false =>
+      simp only [Bool.false_eq_true, if_false, Bool.not_false, Bool.true_and]
+      cases hno : p.nomOnSuccess with
+      | true =>
+        simp only [if_true]
+        exact modPair_marks _ p.id C03.hsClear (fun _ => rfl) h1 (fun q hq => by
+          unfold nk at hq ⊢
+          simp only [Prod.mk.injEq] at hq
+          simp [C03.hsClear, hq.1])
+      | false =>
+        simp only [Bool.false_eq_true, if_false]
+        rw [hno] at h1
+        exact h1
+  have hG2 := hsFin_g (wa := false) (hsB a now m pd p) p pd (C03.hsSel (hsB a now m pd p) p pd).1
+  exact nk_carry (G.modPair_keep (wa := false) _ p.id (fun p => { p with respRecv := p.respRecv + 1 })
+    (fun _ => rfl) (fun _ => rfl) (fun _ => rfl) (fun _ => rfl)) (Nat.le_trans hle1 hG2.npid) h2
+
+/-- the controlling selector: a response to a USE-CANDIDATE check selects when it carried a value that is not
+superseded, or when nothing is selected -/
 theorem hsSel_ctl (a : Agent) (p : Pair) (pd : Pending) (hc : a.controlling = true) :
     (C03.hsSel a p pd).1.selected =
-      if pd.useCand && (pd.nom.isSome || a.selected.isNone) then some p.id else a.selected := by
-  unfold C03.hsSel
+      if pd.useCand then
+        match pd.nom with
+        | some v => if supersededBy a.answeredNomination v then a.selected else some p.id
+        | none => if a.selected.isNone then some p.id else a.selected
+      else a.selected := by
+  unfold C03.hsSel supersededBy
   simp only [hc, if_true]
-  cases pd.useCand <;> cases pd.nom.isSome <;> cases a.selected.isNone <;>
-    simp [C03.select_selected]
+  cases pd.useCand with
+  | false => simp
+  | true =>
+    simp only [if_true]
+    cases pd.nom with
+    | none => simp only []; split <;> simp [C03.select_selected]
+    | some v =>
+      simp only []
+      cases a.answeredNomination with
+      | none => simp [C03.select_selected]
+      | some w => by_cases hle : v ≤ w <;> simp [hle, C03.select_selected]
+
+/-- … and what it records as answered -/
+theorem hsFin_answered (a : Agent) (p : Pair) (pd : Pending) (x : Agent) (hc : a.controlling = true)
+    (hx : x.answeredNomination = a.answeredNomination) :
+    (C03.hsFin a p pd x).answeredNomination =
+      if pd.useCand then
+        match pd.nom with
+        | some v => if supersededBy a.answeredNomination v then a.answeredNomination else some v
+        | none => a.answeredNomination
+      else a.answeredNomination := by
+  unfold C03.hsFin C03.hsAnswered supersededBy
+  simp only [hc, if_true]
+  cases pd.useCand with
+  | false => simp [hx]
+  | true =>
+    simp only [if_true]
+    cases pd.nom with
+    | none => simp [hx]
+    | some v =>
+      simp only []
+      cases ha : a.answeredNomination with
+      | none => simp
+      | some w => by_cases hle : v ≤ w <;> simp [hle, hx, ha]
+
+/-- the controlled selector on a pair whose mark carries no value: the selection moves only if nothing is selected or
+no nomination value has been accepted -/
+theorem hsSel_cld_unvalued (a : Agent) (p : Pair) (pd : Pending) (hc : a.controlling = false)
+    (hn : p.nomOnSuccess = true) (hd : p.deferredNom = none) (hsel : ∀ sid, a.selected = some sid → (a.pairById sid).isSome = true) :
+    (C03.hsSel a p pd).1.selected = a.selected ∨
+      ((C03.hsSel a p pd).1.selected = some p.id ∧ (a.selected = none ∨ a.lastNomination = none)) := by
+  unfold C03.hsSel
+  simp only [hc, Bool.false_eq_true, if_false, hn, if_true, hd]
+  cases hs : a.selected with
+  | none => simp [C03.select_selected]
+  | some sid =>
+    obtain ⟨sp, hsp⟩ := Option.isSome_iff_exists.mp (hsel sid hs)
+    simp only [Option.bind_some, hsp]
+    split
+    · exact Or.inl hs
+    · rename_i h1
+      split
+      · refine Or.inr ⟨C03.select_selected _ _, Or.inr ?_⟩
+        rename_i h2
+        simp only [Bool.and_eq_true, Bool.not_eq_true] at h1 h2
+        cases hl : a.lastNomination with
+        | none => rfl
+        | some w =>
+          have h3 : ¬ (sp.id != p.id) = true → False := fun h => h (by simpa using h2.1)
+          have : a.lastNomination = none := by
+            have h1' := h1
+            simp only [Bool.and_eq_true, Option.isSome_iff_ne_none, ne_eq, not_and, Classical.not_not, bne_iff_ne] at h1'
+            exact h1' (by simpa using h2.1)
+          rw [hl] at this; cases this
+      · exact Or.inl hs
 
 /-- the controlled selector on a pair without a remembered nomination: nothing -/
 theorem hsSel_cld_plain (a : Agent) (p : Pair) (pd : Pending) (hc : a.controlling = false)
@@ -331,5 +469,157 @@ theorem cld_accept_g {wa : Bool} (a1 : Agent) (now : Nat) (m : Msg) (l r : Cand)
       · rw [h.2] at hpid; exact absurd hpid h.1
     refine nk_carry htail ?_ hmarks
     exact Nat.le_trans hle1 hc0.npid
+
+/-- an id that resolves keeps resolving when no pair is dropped -/
+theorem pairById_isSome_of_fwd {a b : Agent} (hf : ∀ p ∈ a.checklist, ∃ p' ∈ b.checklist, p'.id = p.id) {sid : Nat}
+    (h : (a.pairById sid).isSome = true) : (b.pairById sid).isSome = true := by
+  obtain ⟨p, hp⟩ := Option.isSome_iff_exists.mp h
+  obtain ⟨hpm, hpid⟩ := C03.pairById_mem hp
+  obtain ⟨p', hp', hid'⟩ := hf p hpm
+  unfold Agent.pairById
+  rw [List.find?_isSome]
+  exact ⟨p', hp', by simp [hid', hpid]⟩
+
+/-- the switch rule for a nomination without a value: the selection moves only if nothing is selected or no value has
+been accepted -/
+theorem inlineSwitch_plain (c : Agent) (id : Nat) (m : Msg) (p : Pair) (hn : m.nom = none)
+    (hsel : ∀ sid, c.selected = some sid → (c.pairById sid).isSome = true) (h : inlineSwitch c id m p = true) :
+    c.selected = none ∨ c.lastNomination = none := by
+  unfold inlineSwitch at h
+  cases hs : c.selected with
+  | none => exact Or.inl rfl
+  | some sid =>
+    obtain ⟨sp, hsp⟩ := Option.isSome_iff_exists.mp (hsel sid hs)
+    rw [hs] at h
+    simp only [Option.bind_some, hsp, hn, Option.isSome_none, Bool.false_eq_true, if_false] at h
+    split at h
+    · cases h
+    · split at h
+      · cases h
+      · rename_i h2
+        right
+        cases hl : c.lastNomination with
+        | none => rfl
+        | some w => rw [hl] at h2; simp at h2
+
+/-- **an ordinary nomination** (USE-CANDIDATE, no value) on a full controlled agent, from the state in which the pair
+of the request exists: the selection moves to the pair only if nothing was selected or no nomination value has been
+accepted; of the pair's marks only `nomOnSuccess` may be set — a deferred value is never replaced -/
+theorem cld_plain_g {wa : Bool} (a1 : Agent) (now : Nat) (m : Msg) (l r : Cand) (hu : m.useCand = true)
+    (hn : m.nom = none) (hl : a1.cfg.lite = false) (hnd : (idsOf a1).Nodup)
+    (hle : ∀ p ∈ a1.checklist, p.id ≤ a1.nextPairID)
+    (hsel : ∀ sid, a1.selected = some sid → (a1.pairById sid).isSome = true) :
+    (ensurePair a1 l r).2 ∈ (ensurePair a1 l r).1.checklist ∧
+    (ensurePair a1 l r).2.id ≤ (ensurePair a1 l r).1.nextPairID ∧
+    G wa (some (ensurePair a1 l r).2.id) (some (ensurePair a1 l r).2.id) none (ensurePair a1 l r).1
+      (a1.cldHandleRequest now m l r).1 ∧
+    ((a1.cldHandleRequest now m l r).1.selected = a1.selected ∨
+      ((a1.cldHandleRequest now m l r).1.selected = some (ensurePair a1 l r).2.id ∧
+        (a1.selected = none ∨ a1.lastNomination = none))) ∧
+    (∀ q, (ensurePair a1 l r).1.pairById (ensurePair a1 l r).2.id = some q →
+      ∀ p' ∈ (a1.cldHandleRequest now m l r).1.checklist, p'.id = (ensurePair a1 l r).2.id →
+        nk p' = nk q ∨ nk p' = ((nk q).1, true, (nk q).2.2)) := by
+  obtain ⟨hnd1, hle1, hmem1⟩ := ensurePair_ids a1 l r hnd hle
+  refine ⟨hmem1, hle1, ?_⟩
+  have hnf : a1.cldHandleRequest now m l r
+      = cldProceed { counted a1 m l r with lastNomination := a1.lastNomination } now m l r (ensurePair a1 l r).2.id := by
+    rw [cldHandleRequest_nf]
+    simp only []
+    have h1 := counted_lastNomination a1 m l r
+    unfold counted at h1
+    rw [h1, hn, accept_none]
+    simp [counted]
+  rw [hnf]
+  generalize hid : (ensurePair a1 l r).2.id = id at hle1 ⊢
+  have hc0 : G wa none none none (ensurePair a1 l r).1
+      ({ counted a1 m l r with lastNomination := a1.lastNomination } : Agent) :=
+    (counted_g a1 m l r).trans (G.of_eq rfl rfl rfl rfl (fun _ h => h) rfl)
+  have hidsC : idsOf ({ counted a1 m l r with lastNomination := a1.lastNomination } : Agent) = idsOf (ensurePair a1 l r).1 :=
+    idsOf_modPair _ _ (countReq m) (fun _ => rfl)
+  have hcfg : ({ counted a1 m l r with lastNomination := a1.lastNomination } : Agent).cfg.lite = false := by
+    have : (ensurePair a1 l r).1.cfg = a1.cfg := congrArg Core.cfg (core_ensurePair a1 l r)
+    show (ensurePair a1 l r).1.cfg.lite = false
+    rw [this]; exact hl
+  have hselC : ({ counted a1 m l r with lastNomination := a1.lastNomination } : Agent).selected = a1.selected :=
+    (counted_spec a1 m l r).1
+  have hlastC : ({ counted a1 m l r with lastNomination := a1.lastNomination } : Agent).lastNomination
+      = a1.lastNomination := rfl
+  have hfwdC : ∀ p ∈ a1.checklist,
+      ∃ p' ∈ ({ counted a1 m l r with lastNomination := a1.lastNomination } : Agent).checklist, p'.id = p.id :=
+    ((ensurePair_g (wa := wa) a1 l r).trans hc0).fwd
+  obtain ⟨q, hq⟩ := ensurePair_pairById a1 l r
+  have hqc : ({ counted a1 m l r with lastNomination := a1.lastNomination } : Agent).pairById id = some (countReq m q) := by
+    have := counted_pairById a1 m l r q hq
+    rw [hid] at this
+    exact this
+  rw [hid] at hq
+  generalize ({ counted a1 m l r with lastNomination := a1.lastNomination } : Agent) = c
+    at hc0 hidsC hcfg hqc hselC hlastC hfwdC ⊢
+  have hselOK : ∀ sid, c.selected = some sid → (c.pairById sid).isSome = true := by
+    intro sid hs
+    rw [hselC] at hs
+    exact pairById_isSome_of_fwd hfwdC (hsel sid hs)
+  have htail := cldProceed_tail_g (wa := wa) c now m l r id
+  have hnkq : nk (countReq m q) = nk q := rfl
+  -- marks of the pair in `c`
+  have hmc : ∀ p' ∈ c.checklist, p'.id = id → nk p' = nk q := by
+    intro p' hp' hpid
+    have : p' = countReq m q := pair_unique (by rw [← hidsC] at hnd1; exact hnd1) hqc hp' hpid
+    rw [this]
+    exact hnkq
+  have hleC : id ≤ c.nextPairID := Nat.le_trans hle1 hc0.npid
+  -- the nomination block
+  have key : G wa (some id) (some id) none c (cldNominate c m id).1 ∧
+      ((cldNominate c m id).1.selected = c.selected ∨
+        ((cldNominate c m id).1.selected = some id ∧ (c.selected = none ∨ c.lastNomination = none))) ∧
+      (∃ X, (X = nk q ∨ X = ((nk q).1, true, (nk q).2.2)) ∧
+        ∀ p' ∈ (cldNominate c m id).1.checklist, p'.id = id → nk p' = X) := by
+    unfold cldNominate
+    simp only [hu, Bool.true_or, if_true, hcfg, Bool.false_eq_true, if_false, hqc]
+    by_cases hs : (countReq m q).state = .succeeded
+    · have e : ((countReq m q).state == PairState.succeeded) = true := by simp [hs]
+      simp only [e, if_true]
+      by_cases hsw : inlineSwitch c id m (countReq m q) = true
+      · rw [if_pos hsw]
+        refine ⟨(select_g c id).weaken (Or.inr rfl) (Or.inl rfl) (Or.inl rfl) (fun w => w),
+          Or.inr ⟨C03.select_selected c id, inlineSwitch_plain c id m _ hn hselOK hsw⟩, nk q, Or.inl rfl, ?_⟩
+        exact nk_carry (select_g (wa := false) c id) hleC hmc
+      · rw [if_neg hsw]
+        exact ⟨G.refl _ _ _ _ _, Or.inl rfl, nk q, Or.inl rfl, hmc⟩
+    · have e : ((countReq m q).state == PairState.succeeded) = false := by
+        cases hh : (countReq m q).state <;> simp_all
+      simp only [e, Bool.false_eq_true, if_false, hn, Option.isSome_none, Bool.false_or]
+      by_cases hdn : (countReq m q).deferredNom.isNone = true
+      · rw [if_pos hdn]
+        refine ⟨(G.modPair_ex c id (fun p => { p with nomOnSuccess := true, deferredNom := none }) (fun _ => rfl)
+          (fun _ => rfl) (fun _ => rfl)).weaken (Or.inl rfl) (Or.inr rfl)
+          (Or.inl rfl) (fun w => w), Or.inl rfl, ((nk q).1, true, (nk q).2.2), Or.inr rfl, ?_⟩
+        intro p' hp' hpid
+        obtain ⟨x, hx, h | h⟩ := C03.mem_updPair (l := c.checklist) hp'
+        · obtain ⟨ex, rfl⟩ := h
+          have hxq := hmc x hx ex
+          have hdq : q.deferredNom = none := by
+            have : (countReq m q).deferredNom = q.deferredNom := rfl
+            rw [this] at hdn
+            simpa using hdn
+          unfold nk at hxq ⊢
+          simp only [Prod.mk.injEq] at hxq ⊢
+          exact ⟨hxq.1, trivial, by rw [hdq]⟩
+        · rw [h.2] at hpid; exact absurd hpid h.1
+      · rw [if_neg hdn]
+        exact ⟨G.refl _ _ _ _ _, Or.inl rfl, nk q, Or.inl rfl, hmc⟩
+  obtain ⟨hg, hsd, X, hX, hmk⟩ := key
+  refine ⟨G.after hc0 (G.then hg htail), ?_, ?_⟩
+  · rw [htail.selected_eq]
+    rcases hsd with h | ⟨h1, h2⟩
+    · exact Or.inl (h.trans hselC)
+    · exact Or.inr ⟨h1, by rw [hselC, hlastC] at h2; exact h2⟩
+  · intro q' hq' p' hp' hpid
+    have : q' = q := by rw [hq] at hq'; cases hq'; rfl
+    subst this
+    have := nk_carry htail (Nat.le_trans hleC hg.npid) hmk p' hp' hpid
+    rcases hX with h | h
+    · exact Or.inl (this.trans h)
+    · exact Or.inr (this.trans h)
 
 end IceProofs.C20S
